@@ -10,10 +10,14 @@ logger = get_logger()
 
 def init_state_values(name, state_names, state_values, code):
     logger.debug(f"Generating init_state_values with {len(state_values)} values")
-    values_comment = indent(
-        "#" + functools.reduce(acc, [f"{n}={v}" for n, v in zip(state_names, state_values)]),
-        "    ",
-    )
+    if len(state_values) == 0:
+        # A model without states, e.g. a component of intermediates only (same as in the numpy template)
+        values_comment = ""
+    else:
+        values_comment = indent(
+            "#" + functools.reduce(acc, [f"{n}={v}" for n, v in zip(state_names, state_values)]),
+            "    ",
+        )
 
     values = ", ".join(map(str, state_values))
     return dedent(
